@@ -277,7 +277,7 @@ Parser::Tokenizer::int64(int64_t & result, int base, bool allowSign, const SBuf:
     cutoff /= static_cast<uint64_t>(base);
 
     int any = 0, c;
-    int64_t acc = 0;
+    uint64_t acc = 0; // the magnitude; that of INT64_MIN does not fit an int64_t
     do {
         c = *s;
         if (xisdigit(c)) {
@@ -289,7 +289,7 @@ Parser::Tokenizer::int64(int64_t & result, int base, bool allowSign, const SBuf:
         }
         if (c >= base)
             break;
-        if (any < 0 || static_cast<uint64_t>(acc) > cutoff || (static_cast<uint64_t>(acc) == cutoff && c > cutlim))
+        if (any < 0 || acc > cutoff || (acc == cutoff && c > cutlim))
             any = -1;
         else {
             any = 1;
@@ -301,13 +301,14 @@ Parser::Tokenizer::int64(int64_t & result, int base, bool allowSign, const SBuf:
     if (any == 0) // nothing was parsed
         return false;
     if (any < 0) {
-        acc = neg ? INT64_MIN : INT64_MAX;
         errno = ERANGE;
         return false;
-    } else if (neg)
-        acc = -acc;
+    }
 
-    result = acc;
+    if (neg) // acc is at most 2^63 here, and 2^63 has no positive int64_t counterpart
+        result = (acc > static_cast<uint64_t>(INT64_MAX)) ? INT64_MIN : -static_cast<int64_t>(acc);
+    else
+        result = static_cast<int64_t>(acc);
     return success(s - range.rawContent());
 }
 
